@@ -297,8 +297,13 @@ func (o *oracleC09) after(c *stepCtx) *ViolationRec {
 			return nil
 		}
 	}
-	if post.Prec == 0 && post.Form != 1 {
-		return nil // "may be 0 for |x| == 0 and |x| == Inf"
+	switch op.Name {
+	case "Parse", "SetString", "UnmarshalText", "UnmarshalJSON", "Scan", "Sscanf", "TextCopy", "JSONCopy":
+		if post.Prec == 0 && post.Form == 2 {
+			// an "Inf" literal is stored without touching the precision (Prec:
+			// "may be 0 for |x| == 0 and |x| == Inf"), as math/big does
+			return nil
+		}
 	}
 	return fail("prec-default-wrong", "receiver precision was 0 and became %d; documented value(s) %v", post.Prec, want)
 }
